@@ -22,6 +22,7 @@ RULE = ('Generated ledgers (G1/G2). Pairs: (i) the same text parsed twice in eac
         'their originals; (iii) whenever the printed text or the ownership differs the pair is unequal in both directions, at the root and at the '
         'model owning the change; (iv),(v) unequal; always (a == b) == (b == a); equal tokens have equal hashes. Non-trivial = a pair from (iii) whose '
         'perturbed field is not the first field of its class, or a pair from (iv).')
+RULE = RULE + ' Round 8: the perturbation families include in-place arithmetic, mapping operations, copy-and-insert and pop-and-reinsert.'
 ASSUMPTIONS = ['indent_by (a formatting preference that equality also compares) is never varied', 'a perturbation that leaves text and ownership the same (e.g. replacing a child by an equal node) asserts nothing']
 SHRINK_LISTS = ('ops', 'dirs')
 REQUIRED_CLASSES = ('pair:twice', 'pair:copy', 'pert:tok', 'pert:opt', 'pert:list', 'pert:ownership', 'pair:same-text-tokens', 'pair:cross-type', 'pair:same-span-different-type')
